@@ -22,6 +22,9 @@
 //	(*Config).SeatCounts(ri) / Quorum() / Sortition(...) / BlsSign(...) / VotePayload(hash, round, ri)
 //	NewConfigAt(name, version, round, stakes) / NewCertConfig(name, version)   other rounds; certificate rounds (HonestCerts)
 //	VerifyHeaderOn(cfg, chain, header) with an *Overlay of cfg.Chain   per-case look-back headers
+//	(*Config).Views / True / CertView                 the validator sets the chain's headers commit to (see SetView):
+//	                                                 the stake look-back header, the seed look-back header, the parent,
+//	                                                 the block itself and every other header carry DIFFERENT sets
 //
 // Config fields of interest: Members / Voters (entitled = online chamber with
 // stake) with all secret keys and Index (= SingleVote.VoterIdx), Round, LBSeed,
@@ -241,8 +244,16 @@ type Config struct {
 
 	DB      state.Database
 	ValRoot common.Hash // look-back validator set
-	Decoy   common.Hash // a different set, on every header that is NOT the stake look-back one
+	Decoy   common.Hash // a different set (view "other"), on every header that has no set of its own
 	Total   *big.Int    // online chamber stake of the look-back set
+
+	// Views: the validator set each kind of header commits to ("stake" = the look-back set = True;
+	// "seed", "parent", "own", "other"; certificate fixtures of C01 also "certstake").  CertView is the set of
+	// the certificate stake look-back header (== True unless the fixture was built with a separate one).
+	Views       map[string]*SetView
+	True        *SetView
+	CertView    *SetView
+	ChainSigner *Member // signs the synthetic chain headers (so that they pass verifySignature in header batches)
 
 	Round     uint64 // number of the block under verification
 	SeedNum   uint64 // Round - SeedLookBack
@@ -287,6 +298,7 @@ type credKey struct {
 	step      uint32
 	threshold uint64
 	stake     uint64
+	total     uint64
 }
 
 func u32be(i uint32) []byte {
@@ -304,11 +316,16 @@ func VotePayload(hash common.Hash, round *big.Int, ri uint32) []byte {
 // chamber stake (memoised: the VRF value is deterministic, the proof is any
 // valid one).
 func (c *Config) Sortition(m *Member, seed common.Hash, index, step uint32, threshold uint64, stake uint64) *Cred {
-	k := credKey{m.Name, seed, index, step, threshold, stake}
+	return c.SortitionIn(c.Total, m, seed, index, step, threshold, stake)
+}
+
+// SortitionIn is Sortition against the online chamber stake of another validator set.
+func (c *Config) SortitionIn(total *big.Int, m *Member, seed common.Hash, index, step uint32, threshold uint64, stake uint64) *Cred {
+	k := credKey{m.Name, seed, index, step, threshold, stake, total.Uint64()}
 	if v, ok := c.cred.Load(k); ok {
 		return v.(*Cred)
 	}
-	val, proof, j := ucon.VrfSortition(m.VrfSk, seed, index, step, threshold, new(big.Int).SetUint64(stake), c.Total)
+	val, proof, j := ucon.VrfSortition(m.VrfSk, seed, index, step, threshold, new(big.Int).SetUint64(stake), total)
 	cr := &Cred{val, proof, j}
 	v, _ := c.cred.LoadOrStore(k, cr)
 	return v.(*Cred)
@@ -348,6 +365,126 @@ func configSpec(name string) ([]memberSpec, error) {
 			{"cH", params.RoleHouse, on, S}, {"cO", params.RoleSenator, off, S}, {"cZ", params.RoleSenator, on, 0}}, nil
 	}
 	return nil, fmt.Errorf("unknown config %q", name)
+}
+
+// Rec is one validator record as ONE validator set holds it: the stake and the
+// position (= SingleVote.VoterIdx) differ from set to set, keys, role and
+// status do not.
+type Rec struct {
+	M     *Member
+	Stake uint64
+	Index int
+}
+
+func (r *Rec) Chamber() bool {
+	k, _ := params.KindOfRole(r.M.Role)
+	return k == params.KindChamber
+}
+func (r *Rec) Online() bool   { return r.M.Status == params.ValidatorOnline }
+func (r *Rec) Entitled() bool { return r.Chamber() && r.Online() && r.Stake > 0 }
+
+// SetView is one committed validator set, read back exactly as the verifier
+// sees it when it opens that root (index order, stakes, online chamber stake).
+type SetView struct {
+	Name     string
+	Root     common.Hash
+	Recs     []*Rec   // by Index
+	Total    *big.Int // online chamber stake
+	Newcomer *Rec     // a validator that exists in this set only (nil in the look-back set)
+	byName   map[string]*Rec
+}
+
+func (v *SetView) Rec(name string) *Rec { return v.byName[name] }
+
+// EntitledRecs: the records allowed to vote or propose under this set, by index.
+func (v *SetView) EntitledRecs() []*Rec {
+	var out []*Rec
+	for _, r := range v.Recs {
+		if r.Entitled() {
+			out = append(out, r)
+		}
+	}
+	return out
+}
+
+func (v *SetView) describe() string {
+	var ps []string
+	for _, r := range v.Recs {
+		ps = append(ps, fmt.Sprintf("#%d %s stake=%d", r.Index, r.M.Name, r.Stake))
+	}
+	return "[" + strings.Join(ps, "; ") + "]"
+}
+
+// viewStake: stake of the base member at spec position i (look-back stake s) in the named set.  Every set has
+// other proportions (so other seat counts and, the list being ordered by stake, other voter indexes); a record
+// with no stake in the look-back set has stake in all the others.
+func viewStake(view string, i int, s uint64) uint64 {
+	k := uint64(i)
+	switch view {
+	case "seed":
+		return 2*s + 1000 + 300*k
+	case "parent":
+		return s + 150 + 900*(k%3)
+	case "own":
+		return 3*s + 100 + 50*k
+	case "certstake":
+		return s + 400*(k+1)
+	case "other":
+		return 3*s + 777
+	}
+	return s
+}
+
+// buildView commits base (+ a newcomer that exists in this set only) under the named stake map and reads it back.
+func buildView(db state.Database, cfgName, view string, base []*Member) (*SetView, error) {
+	ms := append([]*Member{}, base...)
+	stake := map[string]uint64{}
+	for i, m := range base {
+		stake[m.Name] = viewStake(view, i, m.Stake)
+	}
+	var nc *Member
+	if view != "stake" {
+		nc = newMember(cfgName+"N-"+view, params.RoleSenator, params.ValidatorOnline, 5000)
+		stake[nc.Name] = 5000
+		ms = append(ms, nc)
+	}
+	root, err := commitSet(db, ms, func(m *Member) uint64 { return stake[m.Name] })
+	if err != nil {
+		return nil, err
+	}
+	rd, err := state.NewVldReader(root, db, false)
+	if err != nil {
+		return nil, err
+	}
+	vs := rd.GetValidators()
+	v := &SetView{Name: view, Root: root, Recs: make([]*Rec, len(ms)), byName: map[string]*Rec{}}
+	for _, m := range ms {
+		idx, ok := vs.GetIndex(m.Addr)
+		if !ok || idx < 0 || idx >= len(ms) || v.Recs[idx] != nil {
+			return nil, errors.New("member not in reopened set " + view + ": " + m.Name)
+		}
+		r := &Rec{M: m, Stake: stake[m.Name], Index: idx}
+		v.Recs[idx], v.byName[m.Name] = r, r
+		if m == nc {
+			v.Newcomer = r
+		}
+	}
+	stat, err := rd.GetValidatorsStat()
+	if err != nil {
+		return nil, err
+	}
+	v.Total = stat.GetStakeByKind(params.KindChamber)
+	// independent recomputation of the online chamber stake
+	sum := new(big.Int)
+	for _, r := range v.Recs {
+		if r.Entitled() {
+			sum.Add(sum, new(big.Int).SetUint64(r.Stake))
+		}
+	}
+	if sum.Cmp(v.Total) != 0 {
+		return nil, fmt.Errorf("set %s: online chamber stake: stat says %v, members sum to %v", view, v.Total, sum)
+	}
+	return v, nil
 }
 
 func commitSet(db state.Database, ms []*Member, stakeOf func(*Member) uint64) (common.Hash, error) {
@@ -439,6 +576,12 @@ func tuneWhale(name string, yp *params.YouParams, round uint64, below bool) map[
 // stakes, when non-nil, overrides the stake of the named members (used to tune
 // seat counts onto the quorum boundary).
 func NewConfigAt(name string, v params.YouVersion, round uint64, stakes map[string]uint64) (*Config, error) {
+	return newConfigAt(name, v, round, stakes, false)
+}
+
+// newConfigAt: sepCert gives the certificate stake look-back header (certificate rounds) a validator set of its
+// own (view "certstake") instead of the look-back set; certificate votes are then drawn against that set.
+func newConfigAt(name string, v params.YouVersion, round uint64, stakes map[string]uint64, sepCert bool) (*Config, error) {
 	EnsureParams()
 	yp, ok := params.Versions[v]
 	if !ok {
@@ -467,36 +610,38 @@ func NewConfigAt(name string, v params.YouVersion, round uint64, stakes map[stri
 		ms = append(ms, newMember(s.name, s.role, s.status, st))
 	}
 	c.Outsider = newMember(name+"X", params.RoleSenator, params.ValidatorOnline, ms[0].Stake)
-	if c.ValRoot, err = commitSet(c.DB, ms, func(m *Member) uint64 { return m.Stake }); err != nil {
-		return nil, err
+	c.ChainSigner = newMember(name+"S", params.RoleSenator, params.ValidatorOnline, 0)
+	// the look-back set and the sets of the other headers: same people with other stakes (hence other seat
+	// counts and other voter indexes) plus one validator that exists in that set only
+	c.Views = map[string]*SetView{}
+	names := []string{"stake", "seed", "parent", "own", "other"}
+	if sepCert {
+		names = append(names, "certstake")
 	}
-	// decoy: same people, very different stakes (and everybody online)
-	if c.Decoy, err = commitSet(c.DB, ms, func(m *Member) uint64 { return 3*m.Stake + 777 }); err != nil {
-		return nil, err
-	}
-	if c.Decoy == c.ValRoot {
-		return nil, errors.New("decoy validator set equals the look-back set")
-	}
-	// indexes exactly as the verifier will see them
-	rd, err := state.NewVldReader(c.ValRoot, c.DB, false)
-	if err != nil {
-		return nil, err
-	}
-	vs := rd.GetValidators()
-	for _, m := range ms {
-		idx, ok := vs.GetIndex(m.Addr)
-		if !ok {
-			return nil, errors.New("member not in reopened set: " + m.Name)
+	roots := map[common.Hash]string{}
+	for _, vn := range names {
+		vw, err := buildView(c.DB, name, vn, ms)
+		if err != nil {
+			return nil, err
 		}
-		m.Index = idx
+		if o, dup := roots[vw.Root]; dup {
+			return nil, fmt.Errorf("validator sets %s and %s are equal", o, vn)
+		}
+		roots[vw.Root] = vn
+		c.Views[vn] = vw
+	}
+	c.True = c.Views["stake"]
+	c.CertView = c.True
+	if sepCert {
+		c.CertView = c.Views["certstake"]
+	}
+	c.ValRoot, c.Decoy, c.Total = c.True.Root, c.Views["other"].Root, c.True.Total
+	// indexes exactly as the verifier will see them
+	for _, r := range c.True.Recs {
+		r.M.Index = r.Index
 	}
 	sort.Slice(ms, func(i, j int) bool { return ms[i].Index < ms[j].Index })
 	c.Members = ms
-	stat, err := rd.GetValidatorsStat()
-	if err != nil {
-		return nil, err
-	}
-	c.Total = stat.GetStakeByKind(params.KindChamber)
 	for _, m := range ms {
 		switch {
 		case m.Entitled():
@@ -508,14 +653,6 @@ func NewConfigAt(name string, v params.YouVersion, round uint64, stakes map[stri
 		case m.Stake == 0:
 			c.Zero = m
 		}
-	}
-	// independent recomputation of the online chamber stake
-	sum := new(big.Int)
-	for _, m := range c.Voters {
-		sum.Add(sum, new(big.Int).SetUint64(m.Stake))
-	}
-	if sum.Cmp(c.Total) != 0 {
-		return nil, fmt.Errorf("online chamber stake: stat says %v, members sum to %v", c.Total, sum)
 	}
 
 	// ---- chain of real headers 0 .. round-1 --------------------------------
@@ -536,18 +673,21 @@ func NewConfigAt(name string, v params.YouVersion, round uint64, stakes map[stri
 	mk := func(n uint64) *types.Header {
 		h := &types.Header{Number: new(big.Int).SetUint64(n), Time: 1600000000 + n, MixDigest: types.UConMixHash,
 			CurrVersion: v, GasLimit: 8000000, GasRewards: new(big.Int), Subsidy: new(big.Int),
-			TxHash: types.EmptyRootHash, ReceiptHash: types.EmptyRootHash, ValRoot: c.Decoy}
-		if n == c.StakeNum || (c.IsCert && n == c.CertStakeNum) {
-			h.ValRoot = c.ValRoot
-		}
+			TxHash: types.EmptyRootHash, ReceiptHash: types.EmptyRootHash, ValRoot: c.rootAt(n)}
 		if prev != nil && prev.Number.Uint64()+1 == n {
 			h.ParentHash = prev.Hash()
 		}
 		cd := &ucon.BlockConsensusData{Round: new(big.Int).SetUint64(n), RoundIndex: 1,
 			Seed:           seedOf(name, n),
-			SortitionProof: []byte{1}, Priority: common.Hash{1}, SubUsers: 1, Signature: []byte{},
+			SortitionProof: []byte{1}, Priority: common.Hash{1}, SubUsers: 1,
 			ProposerThreshold: c.CP.ProposerThreshold, ValidatorThreshold: c.CP.ValidatorThreshold, CertValThreshold: c.CP.CertValThreshold}
+		// signed like a sealed header (consensus data and header by the same key): verifySignature passes, so the
+		// headers can precede the header under verification in a VerifyHeaders batch
+		if err := cd.SetSignature(c.ChainSigner.Key); err != nil {
+			panic(err)
+		}
 		h.Consensus, _ = rlp.EncodeToBytes(cd)
+		h.Signature, _ = crypto.Sign(h.Hash().Bytes(), c.ChainSigner.Key)
 		return h
 	}
 	if first > 0 {
@@ -606,6 +746,38 @@ func NewConfigAt(name string, v params.YouVersion, round uint64, stakes map[stri
 	return c, nil
 }
 
+// rootAt: the validator set header n commits to.  The stake look-back header (and, in certificate rounds, the
+// certificate stake look-back header) carry the sets votes are drawn against; the seed look-back header, the
+// parent and every other header carry different ones.
+func (c *Config) rootAt(n uint64) common.Hash {
+	switch {
+	case n == c.StakeNum:
+		return c.True.Root
+	case c.IsCert && n == c.CertStakeNum:
+		return c.CertView.Root
+	case n == c.SeedNum:
+		return c.Views["seed"].Root
+	case n+1 == c.Round:
+		return c.Views["parent"].Root
+	case n == c.Round:
+		return c.Views["own"].Root
+	}
+	return c.Views["other"].Root
+}
+
+// SeedAt: the seed recorded in the chain's header n.
+func (c *Config) SeedAt(chain consensus.ChainReader, n uint64) (common.Hash, error) {
+	h := chain.GetHeaderByNumber(n)
+	if h == nil {
+		return common.Hash{}, fmt.Errorf("no header %d", n)
+	}
+	cd, err := ucon.GetConsensusDataFromHeader(h)
+	if err != nil {
+		return common.Hash{}, err
+	}
+	return cd.Seed, nil
+}
+
 // ProposalOpts are the knobs a proposer has (honest values when zero).
 type ProposalOpts struct {
 	Cred       *Cred                             // proposer credential (default: real one under the protocol threshold)
@@ -614,6 +786,9 @@ type ProposalOpts struct {
 	Thresholds func(cd *ucon.BlockConsensusData) // edit the declared thresholds
 	HeaderKey  *ecdsa.PrivateKey                 // header signature key (default: proposer's)
 	ChtRoot    []byte                            // header.ChtRoot (certificate rounds carry one)
+	Sibling    int                               // > 0: another block of the same proposer for the same (round, index): other transactions, other hash
+	Seed       *common.Hash                      // look-back seed the proposer draws against (default: the seed look-back header's)
+	View       *SetView                          // validator set the proposer draws against (default: the look-back set)
 }
 
 // ProposeWith assembles and seals a block of member m exactly as
@@ -621,11 +796,19 @@ type ProposalOpts struct {
 // SetSignature, header signature over the filtered header hash.
 func (c *Config) ProposeWith(m *Member, ri uint32, o ProposalOpts) (*types.Block, *ucon.BlockConsensusData, error) {
 	round := new(big.Int).SetUint64(c.Round)
+	lbSeed := c.LBSeed
+	if o.Seed != nil {
+		lbSeed = *o.Seed
+	}
 	cr := o.Cred
 	if cr == nil {
-		cr = c.Sortition(m, c.LBSeed, ri, ucon.UConStepProposal, c.CP.ProposerThreshold, m.Stake)
+		if o.View != nil {
+			cr = c.SortitionIn(o.View.Total, m, lbSeed, ri, ucon.UConStepProposal, c.CP.ProposerThreshold, o.View.Rec(m.Name).Stake)
+		} else {
+			cr = c.Sortition(m, lbSeed, ri, ucon.UConStepProposal, c.CP.ProposerThreshold, m.Stake)
+		}
 	}
-	seed, _ := ucon.ComputeSeed(m.VrfSk, round, ri, c.LBSeed)
+	seed, _ := ucon.ComputeSeed(m.VrfSk, round, ri, lbSeed)
 	cd := &ucon.BlockConsensusData{Round: round, RoundIndex: ri, Seed: seed, SortitionProof: cr.Proof,
 		Priority: ucon.VrfComputePriority(cr.Value, cr.J), SubUsers: cr.J,
 		ProposerThreshold: c.CP.ProposerThreshold, ValidatorThreshold: c.CP.ValidatorThreshold, CertValThreshold: c.CP.CertValThreshold}
@@ -644,7 +827,11 @@ func (c *Config) ProposeWith(m *Member, ri uint32, o ProposalOpts) (*types.Block
 	}
 	h := &types.Header{ParentHash: c.Parent.Hash(), Number: round, Time: c.Parent.Time + 1, MixDigest: types.UConMixHash,
 		CurrVersion: c.Version, GasLimit: 8000000, GasRewards: new(big.Int), Subsidy: new(big.Int),
-		TxHash: types.EmptyRootHash, ReceiptHash: types.EmptyRootHash, ValRoot: c.Decoy, Coinbase: m.Addr, ChtRoot: o.ChtRoot}
+		TxHash: types.EmptyRootHash, ReceiptHash: types.EmptyRootHash, ValRoot: c.rootAt(c.Round), Coinbase: m.Addr, ChtRoot: o.ChtRoot}
+	if o.Sibling > 0 {
+		h.TxHash = crypto.Keccak256Hash([]byte(fmt.Sprintf("verif/c01 sibling %d transactions", o.Sibling)))
+		h.Root = crypto.Keccak256Hash([]byte(fmt.Sprintf("verif/c01 sibling %d state", o.Sibling)))
+	}
 	if c.IsCert && h.ChtRoot == nil {
 		h.ChtRoot = crypto.Keccak256([]byte("verif/c01 cht root"))
 		h.BltRoot = crypto.Keccak256([]byte("verif/c01 blt root"))
@@ -675,17 +862,22 @@ func (c *Config) Propose(m *Member, ri uint32) (*types.Block, error) {
 // hash‖round‖index with the member's index in the look-back set.  nil when the
 // member has no seat (the Voter does not vote then).
 func (c *Config) SignVote(m *Member, vt ucon.VoteType, hash common.Hash, ri uint32) *ucon.SingleVote {
-	th, seed := c.CP.ValidatorThreshold, c.LBSeed
+	th, seed, view := c.CP.ValidatorThreshold, c.LBSeed, c.True
 	if vt == ucon.Certificate {
-		// live voters take the protocol's CertValThreshold (sortition_verifier.go getLookbackStakeInfo) and the certificate look-back seed
-		th, seed = c.CP.CertValThreshold, c.CertSeed
+		// live voters take the protocol's CertValThreshold (sortition_verifier.go getLookbackStakeInfo), the certificate
+		// look-back seed and the validator set of the certificate stake look-back header
+		th, seed, view = c.CP.CertValThreshold, c.CertSeed, c.CertView
 	}
-	cr := c.Sortition(m, seed, ri, uint32(vt), th, m.Stake)
+	rec := view.Rec(m.Name)
+	if rec == nil {
+		return nil
+	}
+	cr := c.SortitionIn(view.Total, m, seed, ri, uint32(vt), th, rec.Stake)
 	if cr.J == 0 {
 		return nil
 	}
 	payload := VotePayload(hash, new(big.Int).SetUint64(c.Round), ri)
-	return &ucon.SingleVote{VoterIdx: uint32(m.Index), Votes: cr.J, Proof: cr.Proof, Signature: c.BlsSign(m, payload)}
+	return &ucon.SingleVote{VoterIdx: uint32(rec.Index), Votes: cr.J, Proof: cr.Proof, Signature: c.BlsSign(m, payload)}
 }
 
 // HonestVotes: the precommit of every entitled member that has a seat.
